@@ -199,6 +199,15 @@ def run(ctx):
     cases.append(({"type": "bytes", "logicalType": "decimal", "precision": 4, "scale": True},
                   dict(kind="decimal-scale-falsy-non-integer", path=[], node={"type": "bytes", "precision": 4, "scale": True})))
 
+    # unions whose primitive branches (null included) are spelled in dict form, with a default for the first branch
+    for ft, dv in [([{"type": "null"}, "int"], None), ([{"type": "null"}, {"type": "string"}], None),
+                   ([{"type": "null", "x": 1}, {"type": "array", "items": "long"}], None),
+                   ([{"type": "int"}, {"type": "null"}], 7), ([{"type": "double"}, "null"], 1.5),
+                   ([{"type": "string"}, {"type": "null"}, "boolean"], "abc"), ([{"type": "boolean"}], True)]:
+        cases.append(({"type": "record", "name": "R", "fields": [{"name": "f", "type": ft, "default": dv}]}, None))
+    cases.append(({"type": "record", "name": "R", "fields": [{"name": "f", "type": [{"type": "null"}, "int"], "default": "x"}]},
+                  dict(kind="default-wrong-type", path=["fields", 0], field_type=[{"type": "null"}, "int"], default="x")))
+
     exprs = []
     for s, mut in cases:
         t = sg.to_coq(s)
@@ -254,6 +263,18 @@ def run(ctx):
             if mvalid != "false":
                 ctx.violation("corr:valid_raw", case(s, mutation=mut), impl="generator: ill-formed", model="valid_raw = " + str(mvalid),
                               signature="C11:harness:mutator-vs-valid_raw", found_input=False)
+    # enum symbols outside ASCII (outside the modelled alphabet, implementation only): the specification's symbol grammar
+    # is [A-Za-z_][A-Za-z0-9_]*, so letters / digits / connectors of other scripts after the first character are malformed
+    for sym in ["caf\u00e9", "x\u0663", "a\u00aa", "A_\u00e9", "n\u0303", "x\u203f", "\u00e9", "a\u00b2", "\u03b1\u03b2", "K\uff11"]:
+        for node in ({"type": "enum", "name": "E", "symbols": ["OK", sym]},
+                     {"type": "record", "name": "R", "fields": [{"name": "e", "type": {"type": "enum", "name": "n.E", "symbols": [sym, "B"]}}]}):
+            mut = dict(kind="malformed-symbol", path=[], symbol=sym, non_ascii=True)
+            r = impl_parse(node)
+            ctx.count("pred:rejects-ill-formed", json.dumps(node, sort_keys=True))
+            if cls(r) not in ("parse", "unknown"):
+                ctx.violation("pred:rejects-ill-formed", case(node, mutation=mut), impl=r,
+                              model="SchemaParseException (symbol not matching [A-Za-z_][A-Za-z0-9_]*)",
+                              signature=accepted_mutation_signature(mut, node))
     ctx.notes["generator"] = stats
     ctx.notes["mutations"] = mstats
     ctx.notes["valid_schemas_rejected_by_implementation"] = nvalid_rejected
